@@ -40,7 +40,7 @@ theorem input_conforming_id (defs : Defs) (fuel : Nat) (name : Name) (es : List 
   refine ⟨by simp [varCheck, hv], ?_, ?_⟩
   · intro t ht; simp [varCheck, hv, ht]
   · intro n p hp hpv
-    obtain ⟨_, f, hf, hid⟩ := fits_fuel defs fuel n p hp
+    obtain ⟨f, hf, hid⟩ := fits_fuel defs fuel n p hp
     simp [varCheck, hv, eval, hf, hid v hpv]
 
 /-- A value that does not conform becomes null — for simple types and collections of simple
@@ -53,8 +53,8 @@ is of that type; a missing entry or a non-context input is null. -/
 theorem check_nonconforming (defs : Defs) (fuel : Nat) :
     (∀ t av v, conforms defs fuel (.simple t av) v = false → check defs fuel (.simple t av) v = .null) ∧
     (∀ t av v, conforms defs fuel (.collSimple t av) v = false → check defs fuel (.collSimple t av) v = .null) ∧
-    (∀ n av v, check defs fuel (.referenced n av) v =
-      ((evaluator defs fuel n).map (fun f => checkAllowed (f v) av)).getD .null) ∧
+    (∀ n av v, isAny n = false → check defs fuel (.referenced n av) v =
+      ((evaluator defs fuel (trim n)).map (fun f => checkAllowed (f v) av)).getD .null) ∧
     (∀ cs av es, check defs fuel (.component cs av) (.ctx es) =
       if cs.all (fun c => (ctxGet c.1 es).isSome) then
         checkAllowed (.ctx (chk (evaluator defs fuel) cs es [])) av
@@ -86,9 +86,9 @@ theorem check_nonconforming (defs : Defs) (fuel : Nat) :
     | str s => simp [check, checkWith]
     | atom k t => simp [check, checkWith]
     | ctx l => simp [check, checkWith]
-  · intro n av v
-    simp only [check, checkWith]
-    cases evaluator defs fuel n <;> rfl
+  · intro n av v ha
+    simp only [check, checkWith, ha, Bool.false_eq_true, if_false]
+    cases evaluator defs fuel (trim n) <;> rfl
   · intro cs av es
     simp only [check, checkWith, compLoop_eq]
     by_cases h : (cs.all fun c => (ctxGet c.1 es).isSome) = true
@@ -195,17 +195,17 @@ theorem project_conforming_id (defs : Defs) (fuel : Nat) (t : ItemDef) (v : DTVa
 an item of another type, or one the referenced definition checks to null — is null as a whole. -/
 theorem collection_nonconforming (defs : Defs) (fuel : Nat) :
     (∀ t av xs, (∃ x ∈ xs, t.accepts x = false) → check defs fuel (.collSimple t av) (.list xs) = .null) ∧
-    (∀ n av xs f, evaluator defs fuel n = some f → (∃ x ∈ xs, f x = .null) →
+    (∀ n av xs f, isAny n = false → evaluator defs fuel (trim n) = some f → (∃ x ∈ xs, f x = .null) →
       check defs fuel (.collReferenced n av) (.list xs) = .null) := by
   constructor
   · intro t av xs ⟨x, hx, hf⟩
     have : xs.all t.accepts = false := by
       rw [List.all_eq_false]; exact ⟨x, hx, by simp [hf]⟩
     simp [check, checkWith, allAccept_eq, this]
-  · intro n av xs f hf ⟨x, hx, hn⟩
+  · intro n av xs f ha hf ⟨x, hx, hn⟩
     have : ((xs.map f).any fun y => decide (y = DTValue.null)) = true := by
       rw [List.any_eq_true]; exact ⟨f x, List.mem_map.mpr ⟨x, hx, rfl⟩, by simp [hn]⟩
-    simp [check, checkWith, hf, refLoop_eq, this]
+    simp [check, checkWith, ha, hf, refLoop_eq, this]
 
 /-- The old witnesses of F21 and F22: `tC` refers to `tS` (string) and restricts it to "red",
 "green"; a collection of `tS`. -/
@@ -323,5 +323,151 @@ theorem any_typed_input_unchanged (defs : Defs) (fuel : Nat) (name : Name) (es :
   simp [varCheck, hv]
 
 example : varCheck [] 5 ['z'] (VarType.ofRef (some " Any".toList)) (.ctx [(['z'], .num 7)]) = .num 7 := by decide
+
+/-! ## the type `Any` inside item definitions (repair of the finding F66-any-in-item-definition)
+
+`item_definition_type` classifies an item definition whose `typeRef` is `Any` as a reference (`Any` is none of the
+eight names of `type_ref_to_feel_type`); since the repair the closures built for such a reference
+(`build_referenced_type_evaluator`, `build_collection_of_referenced_type_evaluator`) and the FEEL type of the
+definition (`item_definition_type.rs`) treat the name `Any` — with or without white space around it — as the type
+every value conforms to, before any definition of that name is looked for. -/
+
+/-- White space around the name does not matter: `" Any "`, `"\n\tAny\n"` name the type `Any`. -/
+theorem any_white_space (pre post : Name) (hpre : pre.all isWs = true) (hpost : post.all isWs = true) :
+    isAny (pre ++ "Any".toList ++ post) = true := by
+  simp only [isAny, trim_white_space pre _ post hpre hpost]
+  decide
+
+example : isAny "\n\tAny ".toList = true ∧ isAny "any".toList = false ∧ isAny "Anything".toList = false ∧
+    isAny "An y".toList = false := by decide
+
+/-- **Every value conforms to `Any`**, in every position a type reference of an item definition can stand: to a
+definition (or component) that refers to `Any` every value whose allowed-values test holds conforms, and to a
+collection of `Any` every list; whatever definitions there are, also one named `Any`. -/
+theorem any_conforms (defs : Defs) (fuel : Nat) (n : Name) (ha : isAny n = true) (av : Allowed) :
+    (∀ v, conforms defs fuel (.referenced n av) v = okAllowed v av) ∧
+    (∀ xs, conforms defs fuel (.collReferenced n av) (.list xs) = okAllowed (.list xs) av) ∧
+    (∀ v, (∀ xs, v ≠ .list xs) → conforms defs fuel (.collReferenced n av) v = false) := by
+  refine ⟨fun v => by simp [conforms, conformsWith, ha], fun xs => by simp [conforms, conformsWith, ha], ?_⟩
+  intro v hv
+  cases v with
+  | list xs => exact absurd rfl (hv xs)
+  | null => simp [conforms, conformsWith]
+  | bool b => simp [conforms, conformsWith]
+  | num n => simp [conforms, conformsWith]
+  | str s => simp [conforms, conformsWith]
+  | atom k t => simp [conforms, conformsWith]
+  | ctx l => simp [conforms, conformsWith]
+
+/-- **A value in a position of the type `Any` reaches the decision logic unchanged**: the check of a reference to
+`Any` is the allowed-values test alone (without allowed values: the identity, null included), the check of a
+collection of `Any` hands every list on as it is — null items, items of different kinds — and makes null of
+anything that is no list. -/
+theorem any_unchanged (defs : Defs) (fuel : Nat) (n : Name) (ha : isAny n = true) :
+    (∀ av v, check defs fuel (.referenced n av) v = checkAllowed v av) ∧
+    (∀ v, check defs fuel (.referenced n none) v = v) ∧
+    (∀ av xs, check defs fuel (.collReferenced n av) (.list xs) = checkAllowed (.list xs) av) ∧
+    (∀ xs, check defs fuel (.collReferenced n none) (.list xs) = .list xs) ∧
+    (∀ av v, (∀ xs, v ≠ .list xs) → check defs fuel (.collReferenced n av) v = .null) := by
+  refine ⟨fun av v => by simp [check, checkWith, ha], fun v => by simp [check, checkWith, ha, checkAllowed],
+    fun av xs => by simp [check, checkWith, ha], fun xs => by simp [check, checkWith, ha, checkAllowed], ?_⟩
+  intro av v hv
+  cases v with
+  | list xs => exact absurd rfl (hv xs)
+  | null => simp [check, checkWith]
+  | bool b => simp [check, checkWith]
+  | num n => simp [check, checkWith]
+  | str s => simp [check, checkWith]
+  | atom k t => simp [check, checkWith]
+  | ctx l => simp [check, checkWith]
+
+/-- The witnesses of the finding: `tAny` = {a: Any, b: number}, `tAlias` = Any, `tList` = collection of Any,
+`tLA` = collection of `tAlias`. -/
+def anyDefs : Defs :=
+  [(['t', 'A', 'n', 'y'], .component [(['a'], .referenced "Any".toList none), (['b'], .simple .number none)] none),
+   (['t', 'A', 'l', 'i', 'a', 's'], .referenced " Any ".toList none),
+   (['t', 'L', 'i', 's', 't'], .collReferenced "Any".toList none),
+   (['t', 'L', 'A'], .collReferenced ['t', 'A', 'l', 'i', 'a', 's'] none)]
+
+/-- `{a: 1, b: 2}`, `5` and `[1, "a", null]` reach the logic unchanged (before the repair: `{a: null, b: 2}`, null,
+null); a component beside the `Any` component keeps its own rule; a null item of a collection of a *definition*
+that stands for `Any` is the boundary stated with `Spec.conformsWith`. -/
+example :
+    varCheck anyDefs 5 ['x'] (.named ['t', 'A', 'n', 'y']) (.ctx [(['x'], .ctx [(['a'], .num 1), (['b'], .num 2)])]) =
+      .ctx [(['a'], .num 1), (['b'], .num 2)] ∧
+    varCheck anyDefs 5 ['x'] (.named ['t', 'A', 'n', 'y']) (.ctx [(['x'], .ctx [(['a'], .list [.null]), (['b'], .str ['z'])])]) =
+      .ctx [(['a'], .list [.null]), (['b'], .null)] ∧
+    varCheck anyDefs 5 ['x'] (.named ['t', 'A', 'l', 'i', 'a', 's']) (.ctx [(['x'], .num 5)]) = .num 5 ∧
+    varCheck anyDefs 5 ['x'] (.named ['t', 'L', 'i', 's', 't']) (.ctx [(['x'], .list [.num 1, .str ['a'], .null])]) =
+      .list [.num 1, .str ['a'], .null] ∧
+    varCheck anyDefs 5 ['x'] (.named ['t', 'L', 'i', 's', 't']) (.ctx [(['x'], .num 1)]) = .null ∧
+    varCheck anyDefs 5 ['x'] (.named ['t', 'L', 'A']) (.ctx [(['x'], .list [.num 1, .str ['a']])]) =
+      .list [.num 1, .str ['a']] ∧
+    conforms anyDefs 5 (.referenced ['t', 'A', 'n', 'y'] none) (.ctx [(['a'], .ctx []), (['b'], .num 2)]) = true ∧
+    conforms anyDefs 5 (.referenced ['t', 'L', 'A'] none) (.list [.null]) = false := by decide
+
+/-- The FEEL type of a definition that refers to `Any` is `Any`, of a collection of `Any` the list of `Any`
+(`item_definition_type.rs`, since the repair; before it neither resolved, a component of the type `Any` was left out
+of the context type and a collection of `Any` was the type `Any`): a result of a variable typed by a definition
+referring to `Any` is returned unchanged, a result of a variable typed by a collection of `Any` is a list — the
+value itself when it is one (or null), its singleton list otherwise. -/
+theorem any_output_type (defs : Defs) (fuel : Nat) (m n : Name) (av : Allowed) (ha : isAny n = true) :
+    (lookup defs m = some (.referenced n av) → ∀ v, coerceOutput defs (fuel + 1) (.named m) v = v) ∧
+    (lookup defs m = some (.collReferenced n av) →
+      varFType defs (fuel + 1) (.named m) = .list .any ∧
+      (∀ xs, coerceOutput defs (fuel + 1) (.named m) (.list xs) = .list xs)) := by
+  constructor
+  · intro hl v
+    simp [coerceOutput, varFType, typeName, hl, typeWith, ha, ValOps.coerced, FType.conf_any]
+  · intro hl
+    have ht : varFType defs (fuel + 1) (.named m) = .list .any := by
+      simp [varFType, typeName, hl, typeWith, ha]
+    refine ⟨ht, fun xs => ?_⟩
+    obtain ⟨t, hty⟩ : ∃ t, (DTValue.list xs).typeOf = .list t := by
+      cases xs with
+      | nil => exact ⟨.null, by simp [DTValue.typeOf]⟩
+      | cons x xs =>
+        simp only [DTValue.typeOf]
+        split <;> exact ⟨_, rfl⟩
+    have hc : FType.conf (DTValue.ops.typeOf (.list xs)) (.list .any) = true := by
+      show FType.conf (DTValue.list xs).typeOf (.list .any) = true
+      rw [hty, FType.conf.eq_def]
+      split
+      · rfl
+      · simp [FType.conf_any]
+    simp [coerceOutput, ht, ValOps.coerced, hc]
+
+example : lookup anyDefs ['t', 'L', 'i', 's', 't'] = some (.collReferenced "Any".toList none) ∧
+    lookup anyDefs ['t', 'A', 'l', 'i', 'a', 's'] = some (.referenced " Any ".toList none) ∧
+    isAny " Any ".toList = true := ⟨rfl, rfl, by decide⟩
+
+/-! ## white space around the name an item definition refers to (repair of the finding F67-item-typeref-white-space) -/
+
+/-- The name an item definition refers to is the text of its `typeRef` element without the white space around it
+(`item_definition_type`, `mod.rs:97-104`, since the repair; `type_ref_to_feel_type` always trimmed the names of the
+built-in types): `<typeRef> tB </typeRef>`, also written on a line of its own, means the definition `tB` — for the
+check of a value, the FEEL type of the definition and the specification alike. -/
+theorem item_type_ref_white_space_ignored (defs : Defs) (fuel : Nat) (pre r post : Name)
+    (hpre : pre.all isWs = true) (hpost : post.all isWs = true) (av : Allowed) (v : DTValue) :
+    check defs fuel (.referenced (pre ++ r ++ post) av) v = check defs fuel (.referenced r av) v ∧
+    check defs fuel (.collReferenced (pre ++ r ++ post) av) v = check defs fuel (.collReferenced r av) v ∧
+    typeWith (typeName defs fuel) (.referenced (pre ++ r ++ post) av) = typeWith (typeName defs fuel) (.referenced r av) ∧
+    typeWith (typeName defs fuel) (.collReferenced (pre ++ r ++ post) av) =
+      typeWith (typeName defs fuel) (.collReferenced r av) ∧
+    conforms defs fuel (.referenced (pre ++ r ++ post) av) v = conforms defs fuel (.referenced r av) v ∧
+    conforms defs fuel (.collReferenced (pre ++ r ++ post) av) v = conforms defs fuel (.collReferenced r av) v := by
+  have ht := trim_white_space pre r post hpre hpost
+  have ha : isAny (pre ++ r ++ post) = isAny r := by simp only [isAny, ht]
+  refine ⟨?_, ?_, ?_, ?_, ?_, ?_⟩
+  · simp only [check, checkWith, ha, ht]
+  · cases v <;> simp only [check, checkWith, ha, ht]
+  · simp only [typeWith, ha, ht]
+  · simp only [typeWith, ha, ht]
+  · simp only [conforms, conformsWith, ha, ht]
+  · cases v <;> simp only [conforms, conformsWith, ha, ht]
+
+example : check exDefs 5 (.referenced "\n   tN\n ".toList none) (.num 2) = .num 2 ∧
+    check exDefs 5 (.referenced "\n   tN\n ".toList none) (.num 3) = .null ∧
+    check exDefs 5 (.collReferenced " tN".toList none) (.list [.num 1, .num 2]) = .list [.num 1, .num 2] := by decide
 
 end Dmn.ID
